@@ -13,7 +13,11 @@ func blockStringValue(raw string) string {
 	lines := strings.Split(raw, "\n")
 
 	commonIndent := math.MaxInt32
-	for _, line := range lines {
+	for i, line := range lines {
+		if i == 0 {
+			// the first line does not take part in the common indentation (spec: BlockStringValue)
+			continue
+		}
 		indent := leadingWhitespace(line)
 		if indent < len(line) && indent < commonIndent {
 			commonIndent = indent
